@@ -485,6 +485,22 @@ impl Net {
                 self.conns.insert(id.to_string(), s);
                 Some("ok".into())
             }
+            ["c.sendbig", id, key, byte, count] => {
+                // SET <key> <byte x count> without putting the value on the request line
+                let key = unhex(key)?;
+                let b = unhex(byte)?;
+                let n: usize = count.parse().ok()?;
+                let mut rq = format!("*3\r\n$3\r\nSET\r\n${}\r\n", key.len()).into_bytes();
+                rq.extend_from_slice(&key);
+                rq.extend_from_slice(format!("\r\n${}\r\n", n).as_bytes());
+                rq.extend(std::iter::repeat(*b.first()?).take(n));
+                rq.extend_from_slice(b"\r\n");
+                let s = self.conns.get_mut(*id)?;
+                Some(match s.write_all(&rq).and_then(|_| s.flush()) {
+                    Ok(()) => "ok".into(),
+                    Err(_) => "send-error".into(),
+                })
+            }
             ["c.send", id, h] => {
                 let b = unhex(h)?;
                 let s = self.conns.get_mut(*id)?;
